@@ -110,6 +110,8 @@ inductive Inl
   | esc (c : String)                   -- `\c`
   | sp                                 -- one space
   | nl                                 -- line break inside the paragraph
+  | escnl                              -- a backslash as the last character of a line: it escapes the line break,
+                                       -- which this parser keeps as character data (the backslash goes)
   | emph (s : String)
   | strong (s : String)
   | literal (s : String)
@@ -128,6 +130,7 @@ def inlSrc : Inl → String
   | .esc c => "\\" ++ c
   | .sp => " "
   | .nl => "\n"
+  | .escnl => "\\\n"
   | .emph s => "*" ++ s ++ "*"
   | .strong s => "**" ++ s ++ "**"
   | .literal s => "``" ++ s ++ "``"
@@ -143,6 +146,7 @@ def inlSrc : Inl → String
 def inlLines : List Inl → String → List String
   | [], cur => [cur]
   | .nl :: xs, cur => cur :: inlLines xs ""
+  | .escnl :: xs, cur => (cur ++ "\\") :: inlLines xs ""
   | x :: xs, cur => inlLines xs (cur ++ inlSrc x)
 
 def wrapFmt (fmt : Option String) (kids : List ENode) : List ENode :=
@@ -175,6 +179,7 @@ def inlTok : Inl → Tok
   | .esc c => .t c
   | .sp => .t " "
   | .nl => .t "\n"
+  | .escnl => .t "\n"
   | .emph s => .n [.mk "emphasis" [] none [textNode s]]
   | .strong s => .n [.mk "strong" [] none [textNode s]]
   | .literal s => .n [.mk "literal" [] none [textNode s]]
@@ -202,6 +207,7 @@ def inlText : Inl → String
   | .esc c => c
   | .sp => " "
   | .nl => "\n"
+  | .escnl => "\n"
   | .emph s => s
   | .strong s => s
   | .literal s => s
